@@ -7,7 +7,8 @@ Per object (local, member or frame field) within its scope (function, or class f
   (2) the two candidate indices differ (when candidates come from a preorder index / candidate
       producer) and the two comparators are swap duals of each other, established from their bodies
       (lambda/function/functor whose body is the other one with its two parameters exchanged);
-  (3) across the scope the pairs form a bijection candidate-index <-> comparator.
+  (3) across the scope the pairs form a bijection candidate-index <-> comparator;
+  (4) a hand-written look-up (range-for over index.at(x) calling a comparator of the scope) uses a pair of that bijection.
 Forwarding wrappers (contains/refine of a class that passes its own parameters on) are checked for
 forwarding to the same-named operation. Frozen exception: OptDownwardInclusionFunctor::ant_ (used
 only as a set of antecedents; contains and refine deliberately share arguments)."""
@@ -312,6 +313,30 @@ def run(unit, em):
             if len(cs) > 1:
                 s = next(x for x in sites if x['cmp'] == cm)
                 em.violation(s['node'], 'scope pairing ' + str(cm), 'comparator %s is paired with different candidate indices %s in one scope' % (cm, sorted(map(str, cs))), 'bijection')
+        # (4) hand-written lookups: a loop over the candidates of an index that compares with a comparator of this scope
+        #     must use the pair the antichain calls established (a look-up through the other index applies a fact about
+        #     a smaller state to a bigger one, or vice versa)
+        if scope[0] == 'cls' and c2m:
+            for fn4 in unit.functions:
+                if fn4.body is None or fn4.d.get('rcd') != scope[2]:
+                    continue
+                for lp in fn4.walk():
+                    if lp['k'] != 'CXXForRangeStmt' or not is_node(lp.get('range')):
+                        continue
+                    cand4 = cand_root(unit, fn4, lp['range'])
+                    if cand4 not in c2m:
+                        continue
+                    for c4 in walk(lp['body']):
+                        if c4['k'] == 'CXXOperatorCallExpr' and c4.get('op') == '()' and c4.get('args'):
+                            cm4 = root_path(c4['args'][0])
+                            if cm4 in m2c:
+                                txt4 = 'loop over %s comparing with %s' % ('.'.join(cand4[1:]), '.'.join(cm4))
+                                if cm4 in c2m[cand4]:
+                                    em.ok(c4, txt4, 'the pair used by the antichain calls of this class', 'looppair')
+                                else:
+                                    em.violation(c4, txt4, 'this hand-written look-up walks the candidates of %s but compares the sets with %s; every antichain call of the class pairs %s with %s: '
+                                                 'the look-up goes through the wrong side of the preorder (a hypothesis or cached fact about one state is applied to states on the other side of it)' % (
+                                                     cand4[-1], cm4[-1], cand4[-1], ', '.join(sorted(x[-1] for x in c2m[cand4]))), 'looppair')
         # orientation facts for one-component antichains (always covering: contains(index), refine(inverse))
         if scope[0] == 'fn':
             fn0 = sites[0]['fn']
